@@ -506,6 +506,12 @@ func (s *storeRun) metaLenFor(id uint64) (int, string) {
 	return s.rng.Intn(200), "small"
 }
 
+// options a caller may pass when reopening an existing file: whatever they are — also values no collection could be
+// created with — the header decides (C02: "whatever options are passed when reopening")
+var reopenQuants = []int{0, 4, 8, 16, 32, 64, 0, 4, 8, 16, 32, 64, 12, 1, 128, 7}
+var reopenMetrics = []int{0, 1, 0, 1, 0, 1, 2, 7}
+var reopenDims = []int{0, 1, 2, 3, 4, 5, 6, 7, 8, 1000}
+
 func (s *storeRun) genOp() Op {
 	if s.ro {
 		switch s.rng.Intn(4) {
@@ -516,7 +522,7 @@ func (s *storeRun) genOp() Op {
 		case 2:
 			return Op{K: "get", ID: s.pickID(s.rng.Intn(4) == 0)}
 		default:
-			return Op{K: "reopen", Mode: s.rng.Intn(2), Metric: s.rng.Intn(2), Dim: s.rng.Intn(9), Quant: []int{0, 4, 8, 16, 32, 64}[s.rng.Intn(6)]}
+			return Op{K: "reopen", Mode: s.rng.Intn(2), Metric: reopenMetrics[s.rng.Intn(len(reopenMetrics))], Dim: reopenDims[s.rng.Intn(len(reopenDims))], Quant: reopenQuants[s.rng.Intn(len(reopenQuants))]}
 		}
 	}
 	reopenEvery := 25
@@ -529,7 +535,7 @@ func (s *storeRun) genOp() Op {
 		if s.rng.Intn(60) == 0 {
 			mode = 3
 		}
-		op := Op{K: "reopen", Mode: mode, Metric: s.rng.Intn(2), Dim: s.rng.Intn(9), Quant: []int{0, 4, 8, 16, 32, 64}[s.rng.Intn(6)]}
+		op := Op{K: "reopen", Mode: mode, Metric: reopenMetrics[s.rng.Intn(len(reopenMetrics))], Dim: reopenDims[s.rng.Intn(len(reopenDims))], Quant: reopenQuants[s.rng.Intn(len(reopenQuants))]}
 		if mode == 3 {
 			op.Metric, op.Dim, op.Quant = s.cfg[0], s.cfg[1], s.cfg[2]
 		}
@@ -639,6 +645,24 @@ func storeMain(prop string) func(o *Opts) {
 			s.do(Op{K: "new", Mode: []int{0, 3}[s.rng.Intn(2)], Metric: metric, Dim: dim, Quant: q})
 			s.res.Hit(fmt.Sprintf("config:q%d:m%d", q, metric))
 			s.runGenerated(nops)
+			if s.modelDead && !s.dead && len(res.Violations) > 0 && !res.HasKind("impl-failure") {
+				// model and implementation have diverged and no property oracle has fired yet: go on with the
+				// implementation alone for a while (the generator keeps aiming at growth and fit boundaries), then
+				// read every document back — the search for a concrete failing input
+				s.res.Hit("hunt-after-divergence")
+				extra := 4 * nops
+				if extra > 2400 {
+					extra = 2400
+				}
+				s.runGenerated(extra)
+				if !s.dead && s.real.C != nil {
+					hp := prop
+					if hp == "ALL" {
+						hp = "C01"
+					}
+					s.checkAllDocs(hp, "at the end of the search after a divergence")
+				}
+			}
 			if len(s.ops) > 0 && i == o.Start {
 				n := len(s.ops)
 				if n > 6 {
